@@ -81,6 +81,8 @@ pub struct Model<'a> {
     pub chunks: Vec<Chunk>,
     /// (position in `out`, label) of every top-level macro usage
     pub usage_marks: Vec<(usize, Label)>,
+    /// positions in `out` at which a conditional directive was removed (start and end of every chain's contribution)
+    pub cond_barriers: Vec<usize>,
     pub table: Table,
     /// statistics for non-triviality rules
     pub expansions: usize,
@@ -124,6 +126,7 @@ impl<'a> Model<'a> {
             out: String::new(),
             chunks: Vec::new(),
             usage_marks: Vec::new(),
+            cond_barriers: Vec::new(),
             table: initial,
             expansions: 0,
             nested_expansions: 0,
@@ -365,6 +368,7 @@ impl<'a> Model<'a> {
             }
             Item::Cond(c) => {
                 self.cond_chains += 1;
+                self.cond_barriers.push(self.out.len());
                 if cond_depth > 0 {
                     self.nested_conds += 1;
                 }
@@ -401,6 +405,7 @@ impl<'a> Model<'a> {
                         self.count_dead(body);
                     }
                 }
+                self.cond_barriers.push(self.out.len());
                 // white space after `endif belongs to the file text
                 self.emit(&c.ws_after_endif, Label::File(file));
             }
